@@ -39,8 +39,9 @@ RULE = "generated MUTATION requests (several root fields, aliases, fragments at 
 if __name__ == "__main__":
     tier = sys.argv[1] if len(sys.argv) > 1 else "quick"
     seed = int(sys.argv[2]) if len(sys.argv) > 2 else 0
+    T0 = __import__("time").time()
     b = fw.build("C09", thorough=(tier == "thorough"))
     m = Model() if b["driver_ok"] else None
     stats = c08.main_explore("C09", tier, seed + 9, m, mutation_only=True, extra_oracle=serial_oracle)
     if m: m.close()
-    sys.exit(c08.finish("C09", tier, seed, b, m, stats, RULE, c08.ASSUME))
+    sys.exit(c08.finish("C09", tier, seed, b, m, stats, RULE, c08.ASSUME, T0))
